@@ -177,6 +177,10 @@ func faultErr(kind, res, name string) error {
 		return apierrors.NewAlreadyExists(gr(res), name)
 	case "Timeout":
 		return apierrors.NewTimeoutError("injected timeout", 1)
+	case "Forbidden": // e.g. an exhausted quota or an admission webhook
+		return apierrors.NewForbidden(gr(res), name, fmt.Errorf("injected: exceeded quota"))
+	case "Invalid":
+		return apierrors.NewInvalid(schema.GroupKind{Kind: res}, name, nil)
 	default:
 		return apierrors.NewInternalError(fmt.Errorf("injected server error"))
 	}
@@ -194,6 +198,8 @@ func errKind(err error) string {
 		return "Conflict"
 	case apierrors.IsInvalid(err):
 		return "Invalid"
+	case apierrors.IsForbidden(err):
+		return "Forbidden"
 	case apierrors.IsTimeout(err) || apierrors.IsServerTimeout(err):
 		return "Timeout"
 	case apierrors.IsInternalError(err):
